@@ -3,7 +3,6 @@ package main
 import (
 	"fmt"
 	"go/constant"
-	"go/token"
 	"go/types"
 	"math/big"
 	"strings"
@@ -131,71 +130,6 @@ func (vc *VC) wrapInt(t string, w int, signed bool, typ types.Type) *Val {
 	return vc.bv(app("-", app("mod", app("+", t, half), m), half), w, signed, typ)
 }
 
-func (vc *VC) binopInt(op token.Token, a, b *Val, rt types.Type) *Val {
-	x, y := a.C[0], b.C[0]
-	w, s := a.W, a.Signed
-	switch op {
-	case token.ADD:
-		return vc.wrapInt(app("+", x, y), w, s, rt)
-	case token.SUB:
-		return vc.wrapInt(app("-", x, y), w, s, rt)
-	case token.MUL:
-		return vc.wrapInt(app("*", x, y), w, s, rt)
-	case token.EQL:
-		return vc.boolVal(sEq(x, y))
-	case token.NEQ:
-		return vc.boolVal(sNot(sEq(x, y)))
-	case token.LSS:
-		return vc.boolVal(app("<", x, y))
-	case token.LEQ:
-		return vc.boolVal(app("<=", x, y))
-	case token.GTR:
-		return vc.boolVal(app(">", x, y))
-	case token.GEQ:
-		return vc.boolVal(app(">=", x, y))
-	case token.SHL:
-		if n, ok := intLitVal(y); ok && !s {
-			if n >= int64(w) {
-				return vc.bv("0", w, s, rt)
-			}
-			return vc.wrapInt(app("*", x, new(big.Int).Lsh(big.NewInt(1), uint(n)).String()), w, s, rt)
-		}
-	case token.SHR:
-		if n, ok := intLitVal(y); ok {
-			if n >= int64(w) && !s {
-				return vc.bv("0", w, s, rt)
-			}
-			return vc.bv(app("div", x, new(big.Int).Lsh(big.NewInt(1), uint(n)).String()), w, s, rt)
-		}
-	case token.AND:
-		// mask with 2^k-1
-		if n, ok := intLitBig(y); ok && !s {
-			k := n.BitLen()
-			if new(big.Int).Add(n, big.NewInt(1)).Cmp(new(big.Int).Lsh(big.NewInt(1), uint(k))) == 0 {
-				return vc.bv(app("mod", x, new(big.Int).Lsh(big.NewInt(1), uint(k)).String()), w, s, rt)
-			}
-		}
-	case token.QUO:
-		if !s {
-			return vc.bv(app("div", x, y), w, s, rt)
-		}
-	case token.REM:
-		if !s {
-			return vc.bv(app("mod", x, y), w, s, rt)
-		}
-	}
-	// bit operation without an integer meaning: uninterpreted but functional
-	fn := fmt.Sprintf("bitop_%s_%d", sanitize(op.String()), w)
-	if !vc.trusted["decl:"+fn] {
-		vc.trusted["decl:"+fn] = true
-		vc.decls = append(vc.decls, fmt.Sprintf("(declare-fun %s (Int Int) Int)", fn))
-	}
-	vc.note("int mode: operator %s abstracted as an uninterpreted function with range constraint", op)
-	r := vc.define("bitop", "Int", app(fn, x, y))
-	vc.assume(vc.intRange(r, w, s))
-	return vc.bv(r, w, s, rt)
-}
-
 func intLitVal(t string) (int64, bool) {
 	n, ok := intLitBig(t)
 	if !ok || !n.IsInt64() {
@@ -206,9 +140,4 @@ func intLitVal(t string) (int64, bool) {
 func intLitBig(t string) (*big.Int, bool) {
 	n, ok := new(big.Int).SetString(t, 10)
 	return n, ok
-}
-
-// builtinModel: hook for functions modelled natively (none yet; std contracts live in /verif/contracts).
-func (e *Engine) builtinModel(vc *VC, ins *ssa.Call, f *ssa.Function, args []*Val) bool {
-	return false
 }
